@@ -7,14 +7,26 @@ open Gallia Gallia.Proto Gallia.Config
     eff <field> <cli> <env> <file> <dflt>   -> ok <src> <val> | rej <src> <msg> | missing
     xd <env> <file>                         -> <src> | none            (stage 1 only: extra default)
     rt <field> <val>                        -> <json> <ok <val> | err <msg>>
-  field : <kind>[/opt][/const=<val>]
-  kind  : bool int autoInt text opaque hexBytes ranges ranges2d autoInts enum:NAME=VAL,... choice:a,b,...
+    rs (<hexname> <field> <val>)*           -> ok | err <hexname> <msg> | differs      (reload (store cfg) against cfg)
+    lax <hex> / hexint <hex>                -> <int> | none                           (pydantic lax int, int(x, 16))
+    gv <tree> <hexkey>                      -> none | <tree>                          (Config.get_value)
+    key <sect> <hexname>                    -> <hexkey | -> <hex env name>            (gallia.toml key, GALLIA_<NAME>)
+    tmpl <hexkey>=<leaf | ->|...            -> <tree> <pf:0|1>                        (template document, keys prefix-free?)
+    disc <chain> <env> <xdg> <xdgToml> <homeToml> <extra>  -> <found> <candidates>    (search_config)
+    opt <field> <sect> <hexname> <conf:0|1> <cli> <env> <tree> <dflt>   -> as eff     (one option through all layers)
+  field : <kind>[/opt][/pos][/const=<val>]
+  kind  : bool int autoInt hexInt text opaque hexBytes ranges ranges2d autoInts dict tuples:N enum:NAME=VAL,...
+          enums:NAME=VAL,... choice:a,b,...
   raw   : - | s:<hex> | i:<int> | b:0|1 | L:<atom>,<atom>... | F | o:<hex>:0|1
-  val   : none | i:<int> | b:0|1 | t:<hex> | x:<hex> | l:<int>,... | m:<k>=<int>+<int>..;<k>=-;...
+  val   : none | i:<int> | b:0|1 | t:<hex> | x:<hex> | l:<int>,... | m:<k>=<int>+<int>..;<k>=-;... | T:<int>+<int>/... | d:<tree>
+  tree  : {<hexkey>=<tree>;...} | <leaf>
+  leaf  : n | b0 | b1 | i<int> | s<hex> | f<hex> | a[<atom>,...] | A[<int>+<int>/...] | o<hex>
+  sect  : - (none) | S:<hex>
+  chain : one item per directory, working directory first, separated by commas: g|- then t|-    env : u | e | m
 -/
 
 def hexToStr (h : String) : Option Str :=
-  if h == "" then some [] else
+  if h == "" || h == "-" then some [] else
   match unhexStr h with
   | some bs => (String.fromUTF8? (ByteArray.mk bs.toArray)).map (·.toList)
   | none => none
@@ -46,6 +58,82 @@ def parseRaw (t : String) : Option (Option Raw) :=
 def parseInts (sep : String) (s : String) : Option (List Int) :=
   if s == "" then some [] else allSome ((s.splitOn sep).map parseIntTok)
 
+/-! trees -/
+
+def showInts (sep : String) (l : List Int) : String := sep.intercalate (l.map toString)
+
+def isTokEnd (c : Char) : Bool := c == ';' || c == '}' || c == '=' || c == '|'
+
+def parseIntLists (s : String) : Option (List (List Int)) :=
+  if s == "" then some [] else allSome ((s.splitOn "/").map (parseInts "+"))
+
+def parseLeafTok (t : String) : Option Leaf :=
+  if t == "n" then some .null
+  else if t == "b0" then some (.bool false)
+  else if t == "b1" then some (.bool true)
+  else if t.startsWith "i" then (parseIntTok (t.drop 1).toString).map Leaf.int
+  else if t.startsWith "s" then (hexToStr (t.drop 1).toString).map Leaf.str
+  else if t.startsWith "f" then (hexToStr (t.drop 1).toString).map Leaf.flt
+  else if t.startsWith "o" then (hexToStr (t.drop 1).toString).map Leaf.other
+  else if t.startsWith "a[" && t.endsWith "]" then
+    let body := ((t.drop 2).toString.dropEnd 1).toString
+    if body == "" then some (.arr []) else (allSome ((body.splitOn ",").map parseAtom)).map Leaf.arr
+  else if t.startsWith "A[" && t.endsWith "]" then
+    (parseIntLists ((t.drop 2).toString.dropEnd 1).toString).map Leaf.arrs
+  else none
+
+mutual
+partial def parseTreeC (cs : List Char) : Option (Tree × List Char) :=
+  match cs with
+  | '{' :: rest => parseEntries rest
+  | _ =>
+    let tok := cs.takeWhile (fun c => !isTokEnd c)
+    (parseLeafTok (String.ofList tok)).map (fun l => (Tree.leaf l, cs.drop tok.length))
+partial def parseEntries (cs : List Char) : Option (Tree × List Char) :=
+  match cs with
+  | '}' :: rest => some (.nil, rest)
+  | ';' :: rest => parseEntries rest
+  | _ =>
+    let k := cs.takeWhile (fun c => !isTokEnd c)
+    match cs.drop k.length, hexToStr (String.ofList k) with
+    | '=' :: rest, some key =>
+      match parseTreeC rest with
+      | some (v, rest2) => match parseEntries rest2 with
+        | some (more, rest3) => some (.cons key v more, rest3)
+        | none => none
+      | none => none
+    | _, _ => none
+end
+
+def parseTreeTok (t : String) : Option Tree :=
+  match parseTreeC t.toList with
+  | some (tr, []) => some tr
+  | _ => none
+
+def showAtom : Atom → String
+  | .str s => "s:" ++ strToHex s
+  | .int i => s!"i:{i}"
+
+def showIntLists (l : List (List Int)) : String := "/".intercalate (l.map (showInts "+"))
+
+def showLeaf : Leaf → String
+  | .null => "n"
+  | .bool b => if b then "b1" else "b0"
+  | .int i => s!"i{i}"
+  | .str s => "s" ++ strToHex s
+  | .flt s => "f" ++ strToHex s
+  | .other s => "o" ++ strToHex s
+  | .arr l => "a[" ++ ",".intercalate (l.map showAtom) ++ "]"
+  | .arrs l => "A[" ++ showIntLists l ++ "]"
+
+partial def showTree : Tree → String
+  | .leaf l => showLeaf l
+  | t =>
+    let rec entries : Tree → List String
+      | .cons k v r => (strToHex k ++ "=" ++ showTree v) :: entries r
+      | _ => []
+    "{" ++ ";".intercalate (entries t) ++ "}"
+
 def parseVal (t : String) : Option Val :=
   if t == "none" then some .none
   else if t == "b:0" then some (.bool false)
@@ -54,6 +142,8 @@ def parseVal (t : String) : Option Val :=
   else if t.startsWith "t:" then (hexToStr (t.drop 2).toString).map Val.text
   else if t.startsWith "x:" then (parseHex (if t.length == 2 then "-" else (t.drop 2).toString)).map Val.bytes
   else if t.startsWith "l:" then (parseInts "," (t.drop 2).toString).map Val.ints
+  else if t.startsWith "T:" then (parseIntLists (t.drop 2).toString).map Val.tuples
+  else if t.startsWith "d:" then (parseTreeTok (t.drop 2).toString).map Val.dict
   else if t.startsWith "m:" then
     let body := (t.drop 2).toString
     if body == "" then some (.map []) else
@@ -65,8 +155,6 @@ def parseVal (t : String) : Option Val :=
       | _ => none))).map Val.map
   else none
 
-def showInts (sep : String) (l : List Int) : String := sep.intercalate (l.map toString)
-
 def showVal : Val → String
   | .none => "none"
   | .int i => s!"i:{i}"
@@ -76,6 +164,8 @@ def showVal : Val → String
   | .ints l => "l:" ++ showInts "," l
   | .map m => "m:" ++ ";".intercalate (m.map (fun (k, v) =>
       s!"{k}=" ++ (match v with | none => "-" | some l => showInts "+" l)))
+  | .tuples l => "T:" ++ showIntLists l
+  | .dict t => "d:" ++ showTree t
 
 def showJ : J → String
   | .null => "null"
@@ -85,6 +175,8 @@ def showJ : J → String
   | .arr l => "a:" ++ showInts "," l
   | .obj m => "o:" ++ ";".intercalate (m.map (fun (k, v) =>
       String.ofList k ++ "=" ++ (match v with | none => "-" | some l => showInts "+" l)))
+  | .arrs l => "A:" ++ showIntLists l
+  | .tree t => "d:" ++ showTree t
 
 def parseKind (t : String) : Option Kind :=
   match t with
@@ -97,12 +189,17 @@ def parseKind (t : String) : Option Kind :=
   | "ranges" => some .ranges
   | "ranges2d" => some .ranges2d
   | "autoInts" => some .autoInts
+  | "hexInt" => some .hexInt
+  | "dict" => some .dict
   | _ =>
-    if t.startsWith "enum:" then
-      (allSome (((t.drop 5).toString.splitOn ",").map (fun e =>
+    let members (s : String) : Option (List (Str × Int)) :=
+      allSome ((s.splitOn ",").map (fun e =>
         match e.splitOn "=" with
         | [n, v] => (parseIntTok v).map (fun i => (n.toList, i))
-        | _ => none))).map Kind.enum
+        | _ => none))
+    if t.startsWith "enum:" then (members (t.drop 5).toString).map Kind.enum
+    else if t.startsWith "enums:" then (members (t.drop 6).toString).map Kind.enums
+    else if t.startsWith "tuples:" then (t.drop 7).toString.toNat?.map Kind.tuples
     else if t.startsWith "choice:" then some (.choice (((t.drop 7).toString.splitOn ",").map (·.toList)))
     else none
 
@@ -115,6 +212,7 @@ def parseField (t : String) : Option Field :=
     | some kind =>
       mods.foldl (fun acc m => acc.bind (fun f =>
         if m == "opt" then some { f with optional := true }
+        else if m == "pos" then some { f with positional := true }
         else if m.startsWith "const=" then (parseVal (m.drop 6).toString).map (fun v => { f with const := some v })
         else none)) (some { kind := kind })
 
@@ -123,20 +221,101 @@ def showSrc : Source → String
 
 def showMsg (m : Msg) : String := (reprStr m).replace "Gallia.Config.Msg." ""
 
+def showOutcome : Outcome → String
+  | .ok s v => s!"ok {showSrc s} {showVal v}"
+  | .rejected s m => s!"rej {showSrc s} {showMsg m}"
+  | .missing => "missing"
+
+def parseDflt (d : String) : Option (Option Val) := if d == "-" then some none else (parseVal d).map some
+
+def parseSect (t : String) : Option (Option Str) :=
+  if t == "-" then some none
+  else if t.startsWith "S:" then (hexToStr (t.drop 2).toString).map some
+  else none
+
+def parseCfg : List String → Option (List (Str × Field × Val))
+  | [] => some []
+  | n :: f :: v :: rest =>
+    match hexToStr n, parseField f, parseVal v, parseCfg rest with
+    | some n, some f, some v, some more => some ((n, f, v) :: more)
+    | _, _, _, _ => none
+  | _ => none
+
+def parseChain (t : String) : Option (List Dir) :=
+  if t == "" then some [] else
+  allSome ((t.splitOn ",").map (fun d =>
+    match d.toList with
+    | [g, m] => if (g == 'g' || g == '-') && (m == 't' || m == '-') then some { hasGit := g == 'g', hasToml := m == 't' } else none
+    | _ => none))
+
+def showPlace : Place → String
+  | .env => "env" | .up n => s!"up:{n}" | .user => "user" | .extra i => s!"extra:{i}"
+
 def step (line : String) : String :=
   match words line with
   | ["eff", f, c, e, fl, d] =>
-    match parseField f, parseRaw c, parseRaw e, parseRaw fl with
-    | some fld, some cli, some env, some file =>
-      let dflt? : Option (Option Val) := if d == "-" then some none else (parseVal d).map some
-      match dflt? with
-      | some dflt =>
-        match effective fld cli env file dflt with
-        | .ok s v => s!"ok {showSrc s} {showVal v}"
-        | .rejected s m => s!"rej {showSrc s} {showMsg m}"
-        | .missing => "missing"
-      | none => "bad-op"
-    | _, _, _, _ => "bad-op"
+    match parseField f, parseRaw c, parseRaw e, parseRaw fl, parseDflt d with
+    | some fld, some cli, some env, some file, some dflt =>
+      let extra := extraDefault env file
+      let all := match effective fld cli env file dflt, argValue cli (offered fld extra) with
+        | .rejected _ _, some (_, r) => " " ++ ",".intercalate ((blamedAll fld.kind r extra).map showSrc)
+        | _, _ => ""
+      showOutcome (effective fld cli env file dflt) ++ all
+    | _, _, _, _, _ => "bad-op"
+  | ["opt", f, sc, n, conf, c, e, tr, d] =>
+    match parseField f, parseSect sc, hexToStr n, parseRaw c, parseRaw e, parseTreeTok tr, parseDflt d with
+    | some fld, some sect, some name, some cli, some env, some doc, some dflt =>
+      let decl : OptDecl := { name := name, field := fld, sect := sect, configurable := conf == "1" }
+      -- the environment holds at most the variable of this option, with the text of `env`
+      let environ : Str → Option Str := fun v =>
+        if v == envName name then (match env with | some (.atom (.str s)) => some s | _ => none) else none
+      showOutcome (resolveOption decl cli environ doc dflt)
+    | _, _, _, _, _, _, _ => "bad-op"
+  | "rs" :: rest =>
+    match parseCfg rest with
+    | some cfg =>
+      let vals := cfg.map (fun (n, _, v) => (n, v))
+      let schema := cfg.map (fun (n, f, _) => (n, f, (none : Option Val)))
+      match reload schema (store vals) with
+      | .ok again => if again == vals then "ok" else "differs"
+      | .error (n, m) => s!"err {strToHex n} {showMsg m}"
+    | none => "bad-op"
+  | ["lax", h] => match hexToStr h with
+    | some s => (match parseLaxInt s with | some i => toString i | none => "none")
+    | none => "bad-op"
+  | ["hexint", h] => match hexToStr h with
+    | some s => (match parseHexInt s with | some i => toString i | none => "none")
+    | none => "bad-op"
+  | ["gv", tr, k] =>
+    match parseTreeTok tr, hexToStr k with
+    | some doc, some key => (match getValue doc key with | some t => showTree t | none => "none")
+    | _, _ => "bad-op"
+  | ["key", sc, n] =>
+    match parseSect sc, hexToStr n with
+    | some sect, some name =>
+      (match configKey sect name with | some k => strToHex k | none => "-") ++ " " ++ strToHex (envName name)
+    | _, _ => "bad-op"
+  | ["tmpl", reg] =>
+    let entries := if reg == "-" then some [] else allSome ((reg.splitOn "|").map (fun e =>
+      match e.splitOn "=" with
+      | k :: v0 :: more =>
+        let v := "=".intercalate (v0 :: more)
+        match hexToStr k with
+        | some key => if v == "-" then some (splitOn '.' key, none) else (parseTreeTok v).map (fun l => (splitOn '.' key, some l))
+        | none => none
+      | _ => none))
+    match entries with
+    | some es => showTree (templateDoc es) ++ (if prefixFree (templateKeys es) then " pf:1" else " pf:0")
+    | none => "bad-op"
+  | ["disc", ch, ev, xs, xt, ht, ex] =>
+    let envFile : Option EnvFile := match ev with | "u" => some .unset | "e" => some .existing | "m" => some .missing | _ => none
+    match parseChain ch, envFile with
+    | some chain, some envFile =>
+      let w : World := { chain := chain, envFile := envFile, xdgSet := xs == "1", xdgToml := xt == "1", homeToml := ht == "1",
+                         extra := if ex == "-" then [] else ex.toList.map (· == '1') }
+      let r := match search w with | .file p => "file " ++ showPlace p | .nothing => "nothing" | .notFound => "notfound"
+      r ++ " " ++ ",".intercalate ((candidates w).map showPlace)
+    | _, _ => "bad-op"
   | ["xd", e, fl] =>
     match parseRaw e, parseRaw fl with
     | some env, some file => match extraDefault env file with
